@@ -397,24 +397,64 @@ def gen_float_case(rng):
         r = rng.random()
         m = n if r < 0.1 else (rng.randint(n, min(2 * n + 2, 14)) if r < 0.55 else rng.randint(1, max(1, n)))
         outs.append(m)
-    dtype = rng.weighted([("float64", 5), ("complex128", 4), ("int32", 1), ("float32", 1), ("complex64", 1)])
+    dtype = rng.weighted([("float64", 5), ("complex128", 5), ("int32", 1), ("float32", 1), ("complex64", 1), ("uint8", 0.4), ("bool", 0.3), ("int64", 0.3)])
+    values = rng.weighted(VALUE_CLASSES)
     seedv = rng.next() & 0xFFFFFFFF
     mode = rng.weighted([("out_shape", 3), ("factors", 1)])
     neg = rng.chance(0.25)
     return {"stream": "float", "shape": shape, "axes": axes, "outs": outs, "dtype": dtype, "seed": seedv, "mode": mode, "neg_axes": neg,
-            "inplace": rng.chance(0.3),
+            "inplace": rng.chance(0.3), "values": values,
             "route": "float" if rng.chance(0.65) else rng.choice(["int_tuple", "int_ndarray", "setter_tuple", "setter_ndarray"]),
             "layout": gen_layout(rng)}
 
 
+VALUE_CLASSES = [("random", 8), ("zero-imag", 2.5), ("zero-real", 1.5), ("delta", 1.5), ("const", 1), ("alt", 1), ("zeros", 0.5), ("int-valued", 1)]
+
+
 def float_array(case, which=0):
+    """the input array of a float / hist case.  `values` is the value STRUCTURE (the logical dtype is `dtype` in every class):
+    random | zero-imag (complex dtype, imaginary part exactly 0 everywhere) | zero-real | delta (a single non-zero entry) |
+    const | alt (pure Nyquist pattern +-1 along every axis) | zeros | int-valued"""
     g = np.random.default_rng(case["seed"] + 7919 * which)
     shape = case["shape"]
     dt = np.dtype(case["dtype"])
-    if dt.kind in "iu":
-        return g.integers(-20, 20, size=shape).astype(dt)
-    re = g.uniform(-1, 1, size=shape) + (g.uniform(-3, 3) if which == 0 else 0.0)
+    vc = case.get("values", "random")
+    if dt.kind in "iub":
+        if vc in ("delta", "zeros"):
+            a = np.zeros(shape, dtype=np.int64)
+            if vc == "delta" and a.size:
+                a.flat[int(g.integers(0, a.size))] = int(g.integers(1, 20))
+        elif vc == "const":
+            a = np.full(shape, int(g.integers(1, 20)), dtype=np.int64)
+        elif vc == "alt":
+            a = (np.indices(shape).sum(axis=0) % 2) * 2 - 1 if dt.kind == "i" else np.indices(shape).sum(axis=0) % 2
+        else:
+            a = g.integers(0 if dt.kind in "ub" else -20, 2 if dt.kind == "b" else 20, size=shape)
+        return np.asarray(a).astype(dt)
+    if vc == "delta":
+        re = np.zeros(shape)
+        if re.size:
+            re.flat[int(g.integers(0, re.size))] = float(g.uniform(0.5, 2))
+    elif vc == "const":
+        re = np.full(shape, float(g.uniform(-2, 2)))
+    elif vc == "alt":
+        re = ((np.indices(shape).sum(axis=0) % 2) * 2.0 - 1.0) * float(g.uniform(0.5, 2))
+    elif vc == "zeros":
+        re = np.zeros(shape)
+    elif vc == "int-valued":
+        re = g.integers(-9, 10, size=shape).astype(float)
+    else:
+        re = g.uniform(-1, 1, size=shape) + (g.uniform(-3, 3) if which == 0 else 0.0)
     if dt.kind == "c":
+        if vc == "zero-imag":
+            return (re + 0j).astype(dt)
+        if vc == "zero-real":
+            return (1j * re).astype(dt)
+        if vc in ("delta", "const", "alt", "zeros"):
+            ph = complex(np.exp(1j * g.uniform(0, 2 * np.pi))) if g.uniform() < 0.5 else (1.0 if g.uniform() < 0.5 else 1j)
+            return (re * ph).astype(dt)
+        if vc == "int-valued":
+            return (re + 1j * g.integers(-9, 10, size=shape)).astype(dt)
         return (re + 1j * g.uniform(-1, 1, size=shape)).astype(dt)
     return re.astype(dt)
 
@@ -469,6 +509,7 @@ def check_float_case(ctx, drv, case):
     sfx = "_f64" if tol == 1e-9 else "_f32"
     ctx.count()
     ctx.dist["float:dtype:" + case["dtype"]] += 1
+    ctx.dist["float:values:" + case.get("values", "random")] += 1
     ctx.dist[f"float:ndim{ndim}"] += 1
     dirs = "".join("u" if m > shape[a] else ("d" if m < shape[a] else "=") for a, m in zip(axes, outs))
     par = "".join(("e" if shape[a] % 2 == 0 else "o") + ("e" if m % 2 == 0 else "o") for a, m in zip(axes, outs))
@@ -521,6 +562,9 @@ def check_float_case(ctx, drv, case):
     # (5) linearity
     x2 = float_array(case, 1)
     a_, b_ = 1.5, -0.75
+    if np.iscomplexobj(x):      # complex data: linear over the COMPLEX scalars (i*x included: b_ = 0 is pure homogeneity R(i x) = i R(x))
+        a_, b_ = [(1j, 0.0), (1.5 - 0.5j, -0.75 + 0.25j), (1j, -0.75), (-1.0, 1j)][case["seed"] % 4]
+        ctx.dist["float:linearity-scalars:" + ("i*x" if b_ == 0.0 else "complex")] += 1
     try:
         y2 = call_resample(mk(x2), case, axes, outs).array
         comb = (a_ * x.astype(np.complex128 if np.iscomplexobj(x) else np.float64) + b_ * x2)
@@ -569,10 +613,13 @@ def check_float_case(ctx, drv, case):
                          note="values beyond tolerance")
     # calibration through the exact model
     a_int = np.zeros(shape, dtype=np.int8)
-    new = {"op": "new", "cls": "Dataset", "array": {"shape": shape, "kind": "int", "re": None, "im": None}, "origin": {"l": [fj(v) for v in o0]},
+    new = {"op": "new", "cls": "Dataset", "array": {"shape": shape, "kind": kind_of(x.dtype), "re": None, "im": None}, "origin": {"l": [fj(v) for v in o0]},
            "sampling": {"l": [fj(v) for v in s0]}, "units": None}
     ans = drv.ask({"op": "exact", "new": new, "ops": [{"op": "resample", "arg": {"out": outs}, "axes": {"many": axes}, "inplace": True}]})
     m = ans["ok"][-1]["recv"]
+    # dtype kind of the result as the model states it: complex data stays complex (whatever its VALUES are), everything else becomes float
+    if m["kind"] != kind_of(y.dtype):
+        ctx.disagree("float", case, {"kind": m["kind"]}, {"kind": kind_of(y.dtype)}, note="dtype kind of the resampled array")
     for key, got in (("origin", ro), ("sampling", rs)):
         eq, dist = num_close(m[key], [fj(fr(v)) for v in got], 0)
         if not eq and dist > 1e-12:
@@ -802,8 +849,10 @@ def run_hist(ctx, drv, n):
 def run(ctx):
     from qv.driver import Driver
     drv = Driver("C06")
+    from props import c06_more
     try:
         run_hist(ctx, drv, ctx.n(250, 4000))
+        c06_more.run_reject(ctx, drv, ctx.n(500, 8000))
         run_exact(ctx, drv, ctx.n(1500, 40000))
         run_float(ctx, drv, ctx.n(400, 10000))
         if not ctx.search_mode:
@@ -825,6 +874,9 @@ def replay(ctx, rep):
             check_float_case(ctx, drv, case)
         elif case.get("stream") == "hist":
             check_history(ctx, drv, case)
+        elif case.get("stream") == "reject":
+            from props import c06_more
+            c06_more.check_reject_history(ctx, drv, case)
         else:
             run_indexmap(ctx, drv, max(case.get("n", 1), case.get("m", 1)))
     finally:
